@@ -631,7 +631,8 @@ Lemma wf_loaded_parts Ld : wf_loadedb Ld = true ->
   forallb wf_sid_tpl (r_tpls (l_sid Ld)) = true /\
   r_check_dup (l_sid Ld) = false.
 Proof.
-  unfold wf_loadedb. intros H.
+  unfold wf_loadedb, wf_loaded_base. intros H.
+  apply andb_true_iff in H. destruct H as (H & _).
   apply andb_true_iff in H. destruct H as (H & _).
   apply andb_true_iff in H. destruct H as (H & H3).
   apply andb_true_iff in H. destruct H as (H1 & H2).
